@@ -13,13 +13,16 @@ From Oras Require Import Base.Prelude Generated.GC12 Model.TarRoundTrip Model.Fi
 (* Round trip at full strength: every path of the restored directory -- the directory itself
    included -- is the path of the source tree: same kind, bytes, link target, and mode (minus
    the umask unless PreservePermissions); nothing else exists, and extraction does not fail.
-   For every tree with distinct names per directory, modes within 07777 (files) / 01777
-   (directories), and relative symlinks that stay inside and do not pass through other symlinks
-   or regular files; any child order, any umask within 0777 (the kernel keeps no other bits). *)
+   For every tree with distinct names per directory, modes within 07777 (files AND directories),
+   and relative symlinks that stay inside and do not pass through other symlinks or regular
+   files ([benign_tree], see C12_link_through_link_refuted); any child order; any umask with
+   PreservePermissions, any umask within 0777 without (the kernel keeps no other bits).
+   [extract] = extractTarDirectory with restoreDirModes: directories are created with
+   mode | 0700 and get their recorded mode after the last entry. *)
 Theorem C12_roundtrip :
   forall pre umask preserve repro T,
-    umask <= 511 ->
-    is_dir T = true -> wf_treeb T = true -> modes_okb T = true -> benign_tree T = true ->
+    (preserve = false -> umask <= 511) ->
+    is_dir T = true -> wf_treeb T = true -> modes_okb T = true -> benign_tree pre T = true ->
     exists f', extract pre umask preserve (entries pre repro [] T) = Ok f' /\
       forall p, fs_lookup f' p = expected umask preserve T p.
 Proof. exact roundtrip_full. Qed.
@@ -29,8 +32,8 @@ Print Assumptions C12_roundtrip.
    hypotheses and the result are stated on the tree as given (sorting changes neither). *)
 Theorem C12_roundtrip_walk :
   forall pre umask preserve repro T,
-    umask <= 511 ->
-    is_dir T = true -> wf_treeb T = true -> modes_okb T = true -> benign_tree T = true ->
+    (preserve = false -> umask <= 511) ->
+    is_dir T = true -> wf_treeb T = true -> modes_okb T = true -> benign_tree pre T = true ->
     exists f', extract pre umask preserve (tar_entries pre repro T) = Ok f' /\
       forall p, fs_lookup f' p = expected umask preserve T p.
 Proof. exact roundtrip_walk_full. Qed.
@@ -39,27 +42,37 @@ Print Assumptions C12_roundtrip_walk.
 (* With PreservePermissions the modes are exact and no bound on the umask is needed. *)
 Theorem C12_roundtrip_preserve :
   forall pre umask repro T,
-    is_dir T = true -> wf_treeb T = true -> modes_okb T = true -> benign_tree T = true ->
+    is_dir T = true -> wf_treeb T = true -> modes_okb T = true -> benign_tree pre T = true ->
     exists f', extract pre umask true (entries pre repro [] T) = Ok f' /\
       forall p, fs_lookup f' p = expected umask true T p.
 Proof. exact roundtrip_preserve_full. Qed.
 Print Assumptions C12_roundtrip_preserve.
 
-(* The code before the root-mode fix ([extract_prefix]: nothing happens after the last entry):
-   the round trip held with the directory's own mode replaced by 0777 minus umask
-   ([expected_impl]), and the full statement failed: a 0700 directory under umask 022 came
-   back 0755.  Finding "root-mode", fixed in the repository (narrowDirMode at io.EOF). *)
-Theorem C12_roundtrip_prefix_partial :
-  forall pre umask preserve repro T,
-    is_dir T = true -> wf_treeb T = true -> modes_okb T = true -> benign_tree T = true ->
-    exists f', extract_prefix pre umask preserve (entries pre repro [] T) = Ok f' /\
-      forall p, fs_lookup f' p = expected_impl umask preserve T p.
-Proof. exact roundtrip_impl. Qed.
-Print Assumptions C12_roundtrip_prefix_partial.
+(* [benign_tree] is needed, and what it excludes is rejected by the code depending on the
+   extraction order: d/{b/f, a -> b, c -> a/f} (relative links, all inside) is refused
+   ("no symbolic link allowed between ..."), the same tree with the first link called z is
+   restored.  Known finding "link-through-link-rejected" (resolveRelToBase's check is a
+   deliberate confinement measure; not a small repair). *)
+Theorem C12_link_through_link_refuted :
+  let T := through_link_tree "a" in
+  is_dir T = true /\ wf_treeb T = true /\ modes_okb T = true /\ benign_tree [b "d"] T = false /\
+  extract [b "d"] 18 false (tar_entries [b "d"] true T) = Err XSymlinkDir /\
+  (let T' := through_link_tree "z" in
+   benign_tree [b "d"] T' = false /\
+   exists f', extract [b "d"] 18 false (tar_entries [b "d"] true T') = Ok f' /\
+     forall p, In p [[]; [b "b"]; [b "b"; b "f"]; [b "z"]; [b "c"]; [b "nothing"]] ->
+       fs_lookup f' p = expected 18 false T' p).
+Proof. exact through_link_refuted. Qed.
+Print Assumptions C12_link_through_link_refuted.
 
+(* The code before the fixes of the directory modes ([extract_prefix]: recorded modes applied
+   when the entry is processed, nothing after the last entry): a 0700 directory under umask
+   022 came back 0755.  Finding "root-mode", fixed in the repository; superseded by
+   restoreDirModes, which also makes read-only directories restorable by an unprivileged user
+   ("nonroot-readonly-dir") and keeps setuid/setgid directories ("dir-special-bits"). *)
 Theorem C12_root_mode_prefix_refuted :
   exists T umask,
-    is_dir T = true /\ wf_treeb T = true /\ modes_okb T = true /\ benign_tree T = true /\
+    is_dir T = true /\ wf_treeb T = true /\ modes_okb T = true /\ benign_tree [b "d"] T = true /\
     exists f', extract_prefix [b "d"] umask false (tar_entries [b "d"] true T) = Ok f' /\
       fs_lookup f' [] <> expected umask false T [].
 Proof. exact root_mode_refuted. Qed.
@@ -112,12 +125,22 @@ Section Codec.
   (* Add -> Push of the very blob and descriptor restores the tree *)
   Theorem C12_unpack_roundtrip :
     forall pre umask preserve repro T,
-      umask <= 511 ->
-      is_dir T = true -> wf_treeb T = true -> modes_okb T = true -> benign_tree T = true ->
+      (preserve = false -> umask <= 511) ->
+      is_dir T = true -> wf_treeb T = true -> modes_okb T = true -> benign_tree pre T = true ->
       exists f', unpack digest H digest_eqb dec gunz umask preserve
                    (dir_descriptor digest H enc gz pre repro T) (dir_blob enc gz pre repro T) = Ok f' /\
         forall p, fs_lookup f' p = expected umask preserve T p.
   Proof. exact (unpack_roundtrip_full digest H digest_eqb enc dec gz gunz digest_eqb_spec dec_enc gunz_gz). Qed.
+
+  (* SkipUnpack: the directory is not restored as a tree; its blob comes back as a file under
+     the name, byte for byte (that is what the option means; the tree clause does not apply) *)
+  Theorem C12_skipunpack_stores_blob :
+    forall pre umask preserve repro T checksum nm,
+      let d := dir_descriptor digest H enc gz pre repro T in
+      let blob := dir_blob enc gz pre repro T in
+      push_named digest H digest_eqb dec gunz true umask preserve (dir_annotations checksum nm) d blob
+      = Ok (inr (NFile blob (N.ldiff 438 umask))).
+  Proof. exact (skipunpack_stores_blob digest H digest_eqb enc dec gz gunz digest_eqb_spec). Qed.
 
   (* the recorded uncompressed digest is verified on unpack *)
   Theorem C12_wrong_checksum_rejected :
@@ -161,6 +184,7 @@ Section Codec.
 End Codec.
 Print Assumptions C12_descriptor.
 Print Assumptions C12_unpack_roundtrip.
+Print Assumptions C12_skipunpack_stores_blob.
 Print Assumptions C12_wrong_checksum_rejected.
 Print Assumptions C12_wrong_blob_rejected.
 Print Assumptions C12_reproducible.
@@ -229,7 +253,7 @@ Print Assumptions C12_same_bytes_ignorenoname_refuted.
    relative links (one dangling, one to the parent directory) meets the hypotheses *)
 Definition C12_example_tree : tree :=
   Dir 493 7 [ (b "z", File (b "zz") 2541 1);
-              (b "sub", Dir 448 2 [ (b "empty", Dir 1023 3 []);
+              (b "sub", Dir 1472 2 [ (b "empty", Dir 1023 3 []);
                                     (b "e", File [] 256 4);
                                     (b "up", Link (b "../z") 5);
                                     (b "self", Link (b "..") 6) ]);
@@ -237,7 +261,7 @@ Definition C12_example_tree : tree :=
 
 Example C12_nonvacuous :
   is_dir C12_example_tree = true /\ wf_treeb C12_example_tree = true /\
-  modes_okb C12_example_tree = true /\ benign_tree C12_example_tree = true /\
+  modes_okb C12_example_tree = true /\ benign_tree [b "d"] C12_example_tree = true /\
   map e_name (tar_entries [b "d"] true C12_example_tree) =
     [ [b "d"]; [b "d"; b "a-rather-long-name.with.dots"]; [b "d"; b "sub"]; [b "d"; b "sub"; b "e"];
       [b "d"; b "sub"; b "empty"]; [b "d"; b "sub"; b "self"]; [b "d"; b "sub"; b "up"]; [b "d"; b "z"] ].
@@ -245,10 +269,16 @@ Proof. vm_compute. repeat split; reflexivity. Qed.
 
 Example C12_nonvacuous_roundtrip :
   exists f', extract [b "d"] 18 false (tar_entries [b "d"] true C12_example_tree) = Ok f' /\
-    fs_lookup f' [] = Some (NDir 493) /\ fs_lookup f' [b "sub"] = Some (NDir 448) /\
+    fs_lookup f' [] = Some (NDir 493) /\ fs_lookup f' [b "sub"] = Some (NDir 1472) /\
     fs_lookup f' [b "sub"; b "empty"] = Some (NDir 1005) /\ fs_lookup f' [b "z"] = Some (NFile (b "zz") 2541) /\
     fs_lookup f' [b "sub"; b "up"] = Some (NLink (b "../z")) /\ fs_lookup f' [b "nothing"] = None.
 Proof. eexists. vm_compute. repeat split; reflexivity. Qed.
+
+(* a target that leaves the base and comes back through its own name is inside (for that name) *)
+Example C12_out_and_back_in :
+  let T := Dir 493 0 [(b "f", File (b "x") 420 0); (b "l", Link (b "../d/f") 0)] in
+  benign_tree [b "d"] T = true /\ benign_tree [b "e"] T = false.
+Proof. exact out_and_back_in_accepted. Qed.
 
 Example C12_nonvacuous_listing :
   same_tree (Dir 493 0 [(b "b", File [] 420 0); (b "a", Link (b "b") 0)])
